@@ -11,6 +11,7 @@
    `fixed = false` is the code as found in the pinned tree, `fixed = true` the code after
    notes/fixes/c18-*.patch. *)
 From HV Require Import Base.Prelude Model.Conc Proofs.Conc Proofs.ConcExamples Model.Lifecycle Proofs.Lifecycle.
+From HV Require Gen.LockTablePinned Gen.LockTableFixed.
 
 (* --- the discipline ---------------------------------------------------------------------------- *)
 
@@ -59,6 +60,21 @@ Theorem C18_example_table_bad : locktable_ok (fun _ => false) ex_table_bad = fal
   exists s, reachable (init_state (program_of ex_table_bad)) s /\ race s.
 Proof. exact (conj ex_table_bad_rejected ex_table_bad_races). Qed.
 Print Assumptions C18_example_table_bad.
+
+(* frozen snapshots of the extracted table (the check regenerates it from the source on every run):
+   the tree as found is rejected and its canonical program does reach a race on
+   lazyState.UnderflowNodes between the background loop and the foreground API (C18_refuted of the design);
+   the tree with notes/fixes/c18-1..3 applied passes, hence no pool built from its sites can race *)
+Theorem C18_pinned_table_refuted : locktable_ok Gen.LockTablePinned.nobody_single Gen.LockTablePinned.table = false /\
+  exists s, reachable (init_state (program_of Gen.LockTablePinned.table)) s /\ race s.
+Proof. exact (conj Gen.LockTablePinned.pinned_table_rejected Gen.LockTablePinned.pinned_table_races). Qed.
+Print Assumptions C18_pinned_table_refuted.
+
+Theorem C18_fixed_table_race_free : forall ths,
+  conforms Gen.LockTableFixed.nobody_single Gen.LockTableFixed.table ths ->
+  forall s, reachable (init_state ths) s -> ~ race s.
+Proof. exact Gen.LockTableFixed.fixed_table_race_free. Qed.
+Print Assumptions C18_fixed_table_race_free.
 
 (* --- IncrementalRebalancer Start / Stop / rebalancingLoop ---------------------------------------- *)
 
